@@ -292,8 +292,9 @@ def run_channel(item):
             try:
                 p = reader.get_properties(ch, sample=k)
                 res = "ok"
-            except IOError:
+            except IOError as ex_:
                 res = "ioerror"
+                p = ex_
             except Exception as ex_:  # noqa: BLE001
                 res = "other:%s" % type(ex_).__name__
                 p = ex_
